@@ -371,6 +371,22 @@ def e3(ck: Check) -> None:
                               f"line {w.lineno}: the loop condition `{text(w.test)[:70]}` also ends the loop when the "
                               f"{'/'.join(sorted(_mentions_limit(w.test, limits)))} is reached, and `{text(r)[:30]}` follows without "
                               f"telling the two exits apart: a truncated expansion reports completion", key=f"limit in loop condition, line {w.lineno}")
+            # abandoned work must be *recorded*: a result that is recomputed from the state of the diagram at the end
+            # (`return all(expanded ...)`) cannot see what an abandoned, already expanded node hides below it
+            if not flag_returns and not counter_returns:
+                for n in own_walk(f.node):
+                    if isinstance(n, ast.Continue):
+                        cn = fm.cfgn(n)
+                        hits = _limit_hits(fm, cn, limits)
+                        if not hits:
+                            continue
+                        later = [r for r in own_walk(f.node) if isinstance(r, ast.Return) and not is_false(r.value)
+                                 and fm.cfgn(r).id in fm.cfg.reach_avoiding(cn, [])]
+                        ck.ob("E3", fm, n, not later, f"abandoning successors under {'/'.join(sorted(hits))} is followed by `return False` only"
+                              if not later else
+                              f"successors are abandoned under the {'/'.join(sorted(hits))}, but the result `{text(later[0].value)[:60]}` is not a "
+                              f"flag or counter that this path lowers: it is computed from the diagram afterwards, and an abandoned node that "
+                              f"an earlier call already expanded hides its unexpanded descendants from such a test")
             # the same with a counter of abandoned work: every abandon path must add a positive constant
             for r in counter_returns:
                 cnt = r.value.left.id
